@@ -1040,6 +1040,10 @@ func runC(sp *spec) (res result) {
 		h := fx.big.fheaders[k*1000]
 		cps = append(cps, &h)
 	}
+	if sp.CpsMode == "prefix1" {
+		// a correct but truncated list: shorter than the filter tip's interval
+		cps = cps[:1]
+	}
 	if sp.CpsMode == "collude-short" {
 		// every peer agrees on a chain whose first requested batch is one
 		// filter hash short: the checkpoints are those of that chain
@@ -1446,8 +1450,11 @@ func runSpec(sp *spec) (res result) {
 	return res
 }
 
+// defaultLoop is set by cmd/c03loop (same sources): family L by default.
+var defaultLoop bool
+
 func main() {
-	loopFlag := flag.Bool("loop", false, "run family L (the cfHandler loop) only")
+	loopFlag := flag.Bool("loop", defaultLoop, "run family L (the cfHandler loop) only")
 	a := c.ParseArgs()
 	if a.Replay != "" {
 		var sp spec
